@@ -171,6 +171,9 @@ func propC15(c *Ctx, r *Report) {
 	r.Clauses = append(r.Clauses, depthLikeClause+" - the level-of-detail clamps and size queries of the image bounds-check policies")
 	c.runDepthLike(r, "image.depthlike", inPkgs("msl", "glsl", "hlsl", "spirv"))
 	r.floor("image.depthlike", 6)
+	r.Clauses = append(r.Clauses, boundsStrictClause)
+	c.runBoundsStrict(r, "bounds.strict", inPkgs("msl", "glsl", "hlsl", "spirv"))
+	r.floor("bounds.strict", 4)
 	r.floor("spirv.Block.walkers", 3)
 	r.floor("routing.index-sites", 3)
 	r.floor("hardened.ops", 6)
